@@ -1,61 +1,83 @@
 """C11 - the table cache never yields a wrong table, even after a crash.
 
-Functions under contract: TocCache.__init__/fetch/insert/_encoder/_decoder (cflib/crazyflie/toccache.py) and the
-cache branch of TocFetcher._new_packet_cb (cflib/crazyflie/toc.py); Toc.add_element builds the tables.
+Functions under contract: TocCache.__init__/fetch/insert/_encoder/_decoder (cflib/crazyflie/toccache.py), the cache branch and
+the store step of TocFetcher._new_packet_cb, Toc.add_element/clear (cflib/crazyflie/toc.py); end to end: Log.refresh_toc /
+Log._new_packet_cb (reset branch), Param.refresh_toc (incl. the nested refresh_done) / _disconnected / _connection_requested,
+the element constructors, Crazyflie.__init__ / _platform_info_fetched / _mems_updated_cb, CachedCfFactory.
 
 How the outside world is handled
 --------------------------------
 The code reaches the outside through open(), glob(), os.path.exists(), os.makedirs(), json.dumps(), json.load()
 and eval().  They are NOT replaced by hand-written fakes in the native (CPython) runs: there the real functions run
-on a real scratch directory (thin recording wrappers note every call in the trace).  In the symbolic runs they are
-replaced by the dependency contracts of class `World` below (a ghost file system + an abstract JSON codec).  Every
-proved path is re-run natively on a solver witness, so each dependency contract is sampled against the real
-json/open/glob/os on every path (a disagreement is an ENGINE-MISMATCH, exit 3).
+on a real scratch directory (thin recording wrappers note every call in the trace; the process works inside that
+directory and may create / write below it only).  In the symbolic runs they are replaced by the dependency contracts of
+class `World` below (a ghost file system + an abstract JSON codec).  Every proved path is re-run natively on a solver
+witness, so each dependency contract is sampled against the real json/open/glob/os on every path (a disagreement is an
+ENGINE-MISMATCH, exit 3).  So that a harmless refactoring of the library stays decidable the World also answers
+`with open(..)`, read(), json.loads / json.dump, os.listdir, os.path.join / basename / dirname / splitext / isdir / isfile.
 
 ASSUMED (dependency contracts, class World, symbolic side):
  D1 json.loads(json.dumps(x, indent=2, default=enc), object_hook=dec) rebuilds x node by node: str/int/bool/None
     leaves are returned unchanged, dict keys (str) and their order are kept, `enc` is applied to every
-    non-JSON object and `dec` to every decoded dict, innermost first.  (floats, lists, non-str keys: out of subset.)
+    non-JSON object and `dec` to every decoded dict, innermost first; JSON arrays (only in files the encoder did not
+    write) come back as lists.  (floats, non-str keys: out of subset.)  json.dump(x, f, ..) leaves the text of dumps in f.
  D2 every strict prefix of the text json.dumps() produces for a dict is rejected by json.load with a ValueError
     (the text starts with '{' and its last byte is the matching '}').  This is the crash-safety step; natively it is
     validated on EVERY prefix of every table text a witness produces (World.cut_file), the solver side just uses it.
  D3 open(p) raises FileNotFoundError when p does not exist; open(p, 'w') creates/truncates p when its directory
-    exists and raises FileNotFoundError otherwise; write()/close() succeed (ENOSPC/EIO during write: not covered).
+    exists and raises FileNotFoundError otherwise; write()/close() succeed - except where a contract schedules an I/O
+    error (World.write_fails: OSError from write() or from close(), a strict prefix of the text stays on the disk) or
+    another session in the middle of the write (World.during_write).
  D4 glob(d + '/*.json') lists exactly the existing files of directory d whose name ends in .json ([] if d does not
-    exist); os.path.exists / os.makedirs have their documented meaning and makedirs succeeds.
+    exist); os.path.* / os.listdir / os.makedirs have their documented meaning and makedirs succeeds.
  D5 eval(s) of an identifier is the module global of that name, NameError if there is none.
  D6 the cache directories hold only files named '%08X.json' % checksum (the library's own naming; at most one file
     per directory and checksum, so the order in which glob lists a directory is irrelevant) - except in
     fetch.foreign-file-names, where both directories also hold a *.json whose name is not a checksum.
+ D7 int('%08X' % n, 16) == n for 0 <= n < 2**32 (only used when a changed tree parses the checksum back out of a file name).
 
-BOUNDED: tables of at most 2 entries (0, 1, 2; one or two groups); at most one pre-existing file per directory;
- directory names are fixed strings without glob meta characters; group/name/type strings have fixed lengths (2-3
- symbolic printable ASCII characters; strings are atoms for D1, so the length does not take part in any proof step).
+BOUNDED: tables of at most 2 entries in the quick tier (0, 1, 2; one or two groups), 3 and 4 in the thorough tier; at most one
+ pre-existing file per directory (two in fetch.select.two_files_per_directory, thorough); directory names are fixed strings without glob
+ meta characters; group/name/type strings have fixed lengths (2-3 symbolic printable ASCII characters - all of ISO-8859-1 1..255
+ in history.store_load.*.latin1; strings are atoms for D1, so the length does not take part in any proof step).
+ NOT bounded: the table size and the position in the download in fetcher.store_only_when_complete.* (induction step).
 
 WHERE EACH CLAUSE OF THE DESIGN SECTION IS DECIDED
  O1 field identity of encoder/decoder ........ codec.log, codec.param, codec.plain_dict; lifted over whole tables through
-    D1 in history.store_load.* (store -> [crash | delete] -> [restart] -> load -> repair -> load), history.reserved_name
+    D1 in history.store_load.* (store -> [crash | delete] -> [restart] -> load -> repair -> load), history.reserved_name;
+    end to end (device bytes -> element -> file -> element) in session.log.* / session.param.*
  O2 fetch opens only <dir>/<%08X of the announced checksum>.json, returns the table stored under exactly that checksum
     or None, never raises ......................... fetch.select.<layout> (6 layouts of ro/rw directories, file A in ro,
-    file B in rw, all three checksums symbolic), history.other_checksum (files written by insert itself);
+    file B in rw, all three checksums symbolic), fetch.select.two_files_per_directory, history.other_checksum (files written by insert);
     damaged / missing / cut-at-any-byte / foreign-class / vanished files are misses ... fetch.damaged, history.store_load.*;
+    a write that fails half way (disk full) never raises and leaves a miss ... history.write_error.*;
+    a lookup by another swarm member in the middle of the write is a miss ... swarm.shared_directory (explicit schedule);
     files of other library versions (entries lacking a field) are misses, no field is defaulted ... fetch.other_version.*;
+    files whose NAME is not a checksum are ignored, the cache object is still made ... fetch.foreign-file-names;
+    well-formed JSON that is not a table: empty documents are misses ... fetch.foreign_content.empty; other shapes ...
+    fetch.foreign_content.not_a_table (FAILS on the pinned tree, thorough tier, see the comment there);
     the fetcher asks the cache with the checksum decoded from the info reply, replaces its table only by a non-empty answer,
-    otherwise downloads, and stores under the announced checksum ... fetcher.info_reply.v1/v2, fetcher.download_store.v1/v2
+    otherwise downloads, and stores under the announced checksum ... fetcher.info_reply.v1/v2, fetcher.download_store.*;
+    nothing is stored before the table is complete, for any table size ... fetcher.store_only_when_complete.*,
+    fetcher.download_store.v*.n2/n3/n6;
+    a reconnect / a new process / another device: the table of the announced checksum and nothing of an earlier connection
+    ... session.log.*, session.param.* (also: the cached extended markers drive the persistence query), toc.clear
  O3 only <rw>/<%08X>.json is opened for writing, nothing when rw is unset, the constructor creates at most rw, the ro
-    directory is never written, insert never raises (also when rw has disappeared) ... insert.writes.<layout>
+    directory is never written, insert never raises (also when rw has disappeared) ... insert.writes.<layout>;
+    the directories given to Crazyflie(...) / CachedCfFactory(...) reach, in their roles (also the defaults), the cache
+    object(s) the connection sequence hands to the two fetchers ... crazyflie.cache_directories.*
  quantifier "collisions between log and parameter tables" ... collision.log_then_param / collision.param_then_log: these
-    FAIL on the pinned tree (genuine finding, see the comment above PENDING_FINDING) and run in the thorough tier only.
+    FAIL on the pinned tree (known finding, /verif/known_findings.json).
 
 NOT COVERED (and why):
- * concurrent use of one TocCache by two threads (needs interleavings; the library fetches log and param
-   tables one after the other on the same thread);
- * I/O errors in the middle of write()/close() (disk full): only a crash that leaves a prefix of the text is modelled;
- * cache files that are valid JSON but were not written by any version of the encoder (no '__class__' tag, a list or
-   number at top level, wrong leaf types) - "foreign" files; files written by other versions of the encoder (entries
-   with missing field keys) ARE covered (fetch.other_version);
+ * pre-emption of one TocCache OBJECT by two threads (the library fetches log and param tables one after the other on the
+   same thread); two objects on one directory: one interruption point inside the write (swarm.shared_directory), not two writers
+   interleaving their flushes;
+ * I/O errors while READING, and errors of os.makedirs (permission denied) in the constructor;
+ * cache files with wrong leaf TYPES inside a well-formed entry (a string where the index should be);
  * ParamTocElement.persistent is not part of the cached fields (the property does not list it);
- * the element download itself (packet -> element) belongs to C03; here the element class is a stub.
+ * the decoding of a device payload into an element is C03 (here: fixed type codes, symbolic names, in session.*);
+ * LogVariable.__str__ (text formatting) and the parameter persistence / default-value callbacks of param.py (not table cache).
 """
 from pyvc.api import contract
 
@@ -106,6 +128,38 @@ class _Rec:
         return self._x(*a, **k)
 
 
+_CWD0 = []           # native only: the working directory of the process before the first World moved into its scratch directory
+
+
+def _inside(root, path):
+    """native only: the library under check may create / write below the scratch directory only (a changed tree that
+    writes somewhere else, e.g. into a default './cache', gets 'permission denied' instead of littering the machine)"""
+    import os
+    if not os.path.abspath(str(path)).startswith(root + os.sep):
+        raise PermissionError(13, 'C11 world: outside the scratch directory of the check', str(path))
+
+
+class _OsGuard:
+    """native only: the real os module, creating directories only below the scratch directory"""
+
+    def __init__(self, root):
+        self._root = root
+
+    def __getattr__(self, a):
+        import os
+        return getattr(os, a)
+
+    def makedirs(self, p, *a, **k):
+        import os
+        _inside(self._root, p)
+        return os.makedirs(p, *a, **k)
+
+    def mkdir(self, p, *a, **k):
+        import os
+        _inside(self._root, p)
+        return os.mkdir(p, *a, **k)
+
+
 class _GFile:
     """symbolic only: one file of the ghost file system"""
 
@@ -137,31 +191,70 @@ class World:
         import tempfile
         self.root = tempfile.mkdtemp(prefix='pyvc-C11-')
         atexit.register(shutil.rmtree, self.root, True)
+        # relative paths (a default cache directory such as './cache' in a changed tree) land in the scratch directory too
+        if not _CWD0:
+            _CWD0.append(os.getcwd())
+        os.chdir(self.root)
         m = self.mod = importlib.import_module(TC)
         tr = self.c.trace
-        m.open = _Rec(tr, 'open', builtins.open)        # module global shadowing the builtin; removed again in close()
+        m.open = _Rec(tr, 'open', self._nat_open)       # module global shadowing the builtin; removed again in close()
         m.glob = _Rec(tr, 'glob', glob.glob)
-        m.os = _Rec(tr, 'os', os)
+        m.os = _Rec(tr, 'os', _OsGuard(self.root))
+        self.write_event = None
+
+    def _nat_open(self, *a, **k):
+        """native only: the real open(); a file opened for writing while a write event is scheduled (see write_fails /
+        during_write) is wrapped so that the event happens in the middle of the real write"""
+        import builtins
+        mode = a[1] if len(a) > 1 else k.get('mode', 'r')
+        if mode != 'r':
+            _inside(self.root, a[0])
+        f = builtins.open(*a, **k)
+        if self.write_event is not None and mode != 'r':
+            ev, self.write_event = self.write_event, None
+            return _NatFile(f, ev)
+        return f
 
     # ------------------------------------------------------------------ symbolic: dependency contracts D1-D5
     def _sym_init(self):
-        from pyvc.values import Builtin, ModuleVal
+        from pyvc.values import Builtin, BuiltinType, ModuleVal
         I = self.I = self.c.I
         self.root = '/c11'
-        self.dirs = [self.root]
+        self.dirs = [self.root, '.']            # '.': the working directory exists (a relative default directory can be created)
         self.files = []
         mod = I.load_module(TC)
         self.mod = mod
+        self.write_event = None
         js = ModuleVal('json', None)
         js.attrs['load'] = Builtin('json.load', self._s_load)
+        js.attrs['loads'] = Builtin('json.loads', self._s_loads)
         js.attrs['dumps'] = Builtin('json.dumps', self._s_dumps)
+        js.attrs['dump'] = Builtin('json.dump', self._s_dump)
         osp = ModuleVal('os.path', None)
         osp.attrs['exists'] = Builtin('os.path.exists', self._s_exists)
+        osp.attrs['isdir'] = Builtin('os.path.isdir', self._s_isdir)
+        osp.attrs['isfile'] = Builtin('os.path.isfile', self._s_isfile)
+        osp.attrs['basename'] = Builtin('os.path.basename', self._s_basename)
+        osp.attrs['dirname'] = Builtin('os.path.dirname', self._s_dirname)
+        osp.attrs['splitext'] = Builtin('os.path.splitext', self._s_splitext)
+        osp.attrs['join'] = Builtin('os.path.join', self._s_join)
         osm = ModuleVal('os', None)
         osm.attrs['path'] = osp
+        osm.attrs['sep'] = '/'
         osm.attrs['makedirs'] = Builtin('os.makedirs', self._s_makedirs)
+        osm.attrs['listdir'] = Builtin('os.listdir', self._s_listdir)
+        osm.attrs['remove'] = Builtin('os.remove', self._s_remove)
+        osm.attrs['unlink'] = Builtin('os.unlink', self._s_remove)
+        osm.attrs['replace'] = Builtin('os.replace', self._s_replace)
+        osm.attrs['rename'] = Builtin('os.rename', self._s_replace)
+        from pyvc import models as M
+        from pyvc.values import ExcClass
+        if 'json.JSONDecodeError' not in M._EXC:                 # what json.load raises: a ValueError
+            M._EXC['json.JSONDecodeError'] = ExcClass('json.JSONDecodeError', [M.exc_class(I, 'ValueError')])
+        js.attrs['JSONDecodeError'] = M._EXC['json.JSONDecodeError']
+        self.hexnames = []          # (characters of '%08X' % crc, crc) for every file name the environment made (D7)
         mod.attrs.update({'open': Builtin('open', self._s_open), 'glob': Builtin('glob', self._s_glob),
-                          'eval': Builtin('eval', self._s_eval), 'json': js, 'os': osm})
+                          'eval': Builtin('eval', self._s_eval), 'int': BuiltinType('int', self._s_int), 'json': js, 'os': osm})
         I.note_assumption('C11 dependency contracts D1-D6 for json/open/glob/os/eval (see contracts/C11.py), sampled natively on every path')
 
     def _oos(self, what):
@@ -214,9 +307,114 @@ class World:
         return PList([f.path for f in self.files if f.dirname == pat[:-7]])
 
     def _s_exists(self, I, a, k):
-        p = self._conc_str(a[0], 'os.path.exists argument')
         I.trace.append(('os.path.exists', tuple(a), dict(k)))
-        return p in self.dirs
+        if isinstance(a[0], str) and a[0] in self.dirs:
+            return True
+        return self._file_at(a[0]) is not None
+
+    def _file_at(self, path):
+        """the ghost file with this path (None if there is none or its directory is gone)"""
+        return self._lookup(path) if self._dirname(path) in self.dirs else None
+
+    def _s_isdir(self, I, a, k):
+        I.trace.append(('os.path.isdir', tuple(a), dict(k)))
+        return isinstance(a[0], str) and a[0] in self.dirs
+
+    def _s_isfile(self, I, a, k):
+        I.trace.append(('os.path.isfile', tuple(a), dict(k)))
+        if isinstance(a[0], str) and a[0] in self.dirs:
+            return False
+        return self._file_at(a[0]) is not None
+
+    def _chars(self, v, what):
+        from pyvc.values import PStr
+        if isinstance(v, str):
+            return [ord(ch) for ch in v]
+        if isinstance(v, PStr):
+            return list(v.chars)
+        self.I.raise_py('TypeError', '%s: expected str, bytes or os.PathLike object' % what)
+
+    def _never(self, ch, code):
+        """character ch (concrete or symbolic) is certainly not `code`; undecidable -> out of subset"""
+        if isinstance(ch, int):
+            return ch != code
+        if self.I.path.must(ch.t != code):
+            return True
+        self._oos('a symbolic path character that may be %r' % chr(code))
+
+    def _s_basename(self, I, a, k):
+        from pyvc.ops import mk_seq
+        chars = self._chars(a[0], 'basename')
+        cut = max([i for i, ch in enumerate(chars) if not self._never(ch, 47)] or [-1])
+        return mk_seq('str', chars[cut + 1:])
+
+    def _s_dirname(self, I, a, k):
+        from pyvc.ops import mk_seq
+        chars = self._chars(a[0], 'dirname')
+        sl = [i for i, ch in enumerate(chars) if not self._never(ch, 47)]
+        if not sl:
+            return ''
+        head = chars[:sl[-1] + 1]
+        if any(ch != 47 for ch in head):
+            while head and head[-1] == 47:
+                head.pop()
+        return mk_seq('str', head)
+
+    def _s_splitext(self, I, a, k):
+        """posixpath.splitext: the extension starts at the last dot of the last component, unless that component has
+        only leading dots before it"""
+        from pyvc.ops import mk_seq
+        chars = self._chars(a[0], 'splitext')
+        sep = max([i for i, ch in enumerate(chars) if not self._never(ch, 47)] or [-1])
+        dot = max([i for i, ch in enumerate(chars) if not self._never(ch, 46)] or [-1])
+        if dot > sep:
+            j = sep + 1
+            while j < dot:
+                if not (isinstance(chars[j], int) and chars[j] == 46):
+                    return (mk_seq('str', chars[:dot]), mk_seq('str', chars[dot:]))
+                j += 1
+        return (mk_seq('str', chars), '')
+
+    def _s_join(self, I, a, k):
+        from pyvc.ops import mk_seq
+        out = self._chars(a[0], 'join')
+        for part in a[1:]:
+            pc = self._chars(part, 'join')
+            if pc and not self._never(pc[0], 47):
+                out = pc
+            elif not out or out[-1] == 47:
+                out = out + pc
+            else:
+                out = out + [47] + pc
+        return mk_seq('str', out)
+
+    def _s_remove(self, I, a, k):
+        I.trace.append(('os.remove', tuple(a), dict(k)))
+        gf = self._file_at(a[0])
+        if gf is None:
+            I.raise_py('FileNotFoundError', 2, 'No such file or directory')
+        self.files.remove(gf)
+
+    def _s_replace(self, I, a, k):
+        """os.replace / os.rename of a file onto a file name in an existing directory"""
+        I.trace.append(('os.replace', tuple(a), dict(k)))
+        gf = self._file_at(a[0])
+        d = self._dirname(a[1])
+        if gf is None or d not in self.dirs:
+            I.raise_py('FileNotFoundError', 2, 'No such file or directory')
+        old = self._lookup(a[1])
+        if old is not None and old is not gf:
+            self.files.remove(old)
+        gf.path, gf.dirname = a[1], d
+
+    def _s_listdir(self, I, a, k):
+        from pyvc.values import PList
+        p = self._conc_str(a[0], 'os.listdir argument')
+        I.trace.append(('os.listdir', tuple(a), dict(k)))
+        if p not in self.dirs:
+            I.raise_py('FileNotFoundError', 2, 'No such file or directory')
+        names = [self._s_basename(I, [f.path], {}) for f in self.files if f.dirname == p]
+        return PList(names + [d[len(p) + 1:] for d in self.dirs if d.startswith(p + '/') and '/' not in d[len(p) + 1:]])
 
     def _s_makedirs(self, I, a, k):
         p = self._conc_str(a[0], 'os.makedirs argument')
@@ -229,7 +427,7 @@ class World:
         self.dirs.append(p)
 
     def _mk_file_obj(self, gf, methods):
-        from pyvc.values import Ext
+        from pyvc.values import Builtin, Ext
         fo = Ext('file', auto=False)
         fo.gfile = gf
         for nm, fn in methods.items():
@@ -237,6 +435,13 @@ class World:
             ch.parent, ch.method_name = fo, nm
             fo.returns[nm] = fn
             fo.attrs[nm] = ch
+        # `with open(...) as f:` - leaving the block closes the file (and reports what close() reports)
+        fo.attrs['__enter__'] = Builtin('file.__enter__', lambda I_, a_, k_: fo)
+
+        def _exit(I_, a_, k_):
+            methods['close'](I_, [], {})
+            return False
+        fo.attrs['__exit__'] = Builtin('file.__exit__', _exit)
         return fo
 
     def _s_open(self, I, a, k):
@@ -246,12 +451,17 @@ class World:
             self._oos('open() with buffering/encoding arguments')
         I.trace.append(('open', tuple(a), dict(k)))
         d = self._dirname(path)
-        if mode == 'r':
+        if mode in ('r', 'rt'):
             gf = self._lookup(path) if d in self.dirs else None
             if gf is None:
                 I.raise_py('FileNotFoundError', 2, 'No such file or directory')
-            return self._mk_file_obj(gf, {'close': lambda I_, a_, k_: None})
-        if mode == 'w':
+
+            def read(I_, a_, k_):
+                if a_ or k_:
+                    self._oos('read() with a size')
+                return self._content(gf)
+            return self._mk_file_obj(gf, {'close': lambda I_, a_, k_: None, 'read': read})
+        if mode in ('w', 'wt'):
             if d not in self.dirs:
                 I.raise_py('FileNotFoundError', 2, 'No such file or directory')
             gf = self._lookup(path)
@@ -259,14 +469,45 @@ class World:
                 gf = _GFile(path, d)
                 self.files.append(gf)
             gf.chunks, gf.state = [], 'ok'          # 'w' truncates
+            ev, self.write_event = self.write_event, None
+            st = {'ev': ev}
 
             def write(I_, a_, k_):
                 if not isinstance(a_[0], _jtext_class()):
                     self._oos('write of something that is not the result of json.dumps: %r' % (a_[0],))
                 gf.chunks.append(a_[0])
+                e, st['ev'] = st['ev'], (st['ev'] if st['ev'] and st['ev'][0] == 'close-fails' else None)
+                if e is None:
+                    return None
+                if e[0] == 'write-fails':            # a strict prefix reached the disk, then the device reported an error
+                    gf.state = 'cut'
+                    I_.raise_py('OSError', 28, 'No space left on device')
+                if e[0] == 'close-fails':            # the text sits in the buffer; flushing it at close() fails half way
+                    gf.state = 'cut'
+                if e[0] == 'during':                 # another session runs while a strict prefix is on the disk
+                    gf.state = 'cut'
+                    e[1]()
+                    if gf in self.files and gf.chunks and gf.chunks[-1] is a_[0]:
+                        gf.state = 'ok'
                 return None
-            return self._mk_file_obj(gf, {'write': write, 'close': lambda I_, a_, k_: None})
+
+            def close(I_, a_, k_):
+                e, st['ev'] = st['ev'], None
+                if e is not None and e[0] == 'close-fails':
+                    if not gf.chunks:
+                        return None                  # nothing was written, nothing to flush
+                    I_.raise_py('OSError', 28, 'No space left on device')
+                return None
+            return self._mk_file_obj(gf, {'write': write, 'close': close})
         self._oos('open mode %r' % (mode,))
+
+    def _content(self, gf):
+        """what read() returns: the JSON text that was written, or a text that is no JSON document"""
+        if gf.state != 'ok' or len(gf.chunks) == 0:
+            return _badtext_class()()
+        if len(gf.chunks) != 1:
+            self._oos('file written in several pieces')
+        return gf.chunks[0]
 
     def _s_eval(self, I, a, k):
         if len(a) != 1 or k:
@@ -285,6 +526,18 @@ class World:
         if b is not None:
             return b
         I.raise_py('NameError', "name '%s' is not defined" % s)
+
+    def _s_int(self, I, a, k):
+        """D7: int('%08X' % n, 16) == n for 0 <= n < 2**32 - used when the code parses the checksum back out of a file name
+        the environment built from a symbolic checksum (digit-by-digit conversion of 8 symbolic hex digits would fork
+        2**8 ways); everything else is the interpreter's own int()"""
+        from pyvc.values import PStr
+        if len(a) == 2 and not k and a[1] == 16 and isinstance(a[0], PStr):
+            for chars, crc in self.hexnames:
+                if len(chars) == len(a[0].chars) and all(x is y or (hasattr(x, 't') and hasattr(y, 't') and x.t.eq(y.t))
+                                                         for x, y in zip(chars, a[0].chars)):
+                    return crc
+        return I.call(I.models.builtin(I, 'int'), list(a), dict(k))
 
     def _to_json(self, v, default, depth=0):
         from pyvc.values import PDict, PStr, SInt, SBool
@@ -308,10 +561,12 @@ class World:
         self._oos('json.dumps of %r' % (v,))
 
     def _from_json(self, v, hook):
-        from pyvc.values import PDict
+        from pyvc.values import PDict, PList
         if isinstance(v, PDict):
             d = PDict([(kk, self._from_json(vv, hook)) for kk, vv in zip(v.keys, v.vals)])
             return self.I.call(hook, [d], {}) if hook is not None else d
+        if isinstance(v, PList):                    # a JSON array (only in files the encoder did not write)
+            return PList([self._from_json(x, hook) for x in v.items])
         return v
 
     def _s_dumps(self, I, a, k):
@@ -319,17 +574,31 @@ class World:
             self._oos('json.dumps arguments %r' % (sorted(k),))
         return _jtext_class()(self._to_json(a[0], k.get('default')))
 
+    def _s_dump(self, I, a, k):
+        """json.dump(obj, fp, ...) = fp.write(json.dumps(obj, ...)) as far as the resulting file is concerned (the real
+        function writes the same text in several pieces; a crash leaves a prefix of it either way)"""
+        if len(a) != 2 or set(k) - {'indent', 'default'}:
+            self._oos('json.dump arguments %r' % (sorted(k),))
+        text = _jtext_class()(self._to_json(a[0], k.get('default')))
+        I.call(I.getattr(a[1], 'write'), [text], {})
+        return None
+
     def _s_load(self, I, a, k):
         if len(a) != 1 or set(k) - {'object_hook'}:
             self._oos('json.load arguments %r' % (sorted(k),))
         gf = getattr(a[0], 'gfile', None)
         if gf is None:
             self._oos('json.load of %r' % (a[0],))
-        if gf.state != 'ok' or len(gf.chunks) == 0:
-            I.raise_py('ValueError', 'JSONDecodeError')           # D2 / not JSON / empty file
-        if len(gf.chunks) != 1:
-            self._oos('file written in several pieces')
-        return self._from_json(gf.chunks[0].value, k.get('object_hook'))
+        return self._s_loads(I, [self._content(gf)], k)
+
+    def _s_loads(self, I, a, k):
+        if len(a) != 1 or set(k) - {'object_hook'}:
+            self._oos('json.loads arguments %r' % (sorted(k),))
+        if isinstance(a[0], _badtext_class()):
+            I.raise_py('json.JSONDecodeError', 'Expecting value')  # D2 / not JSON / empty file
+        if not isinstance(a[0], _jtext_class()):
+            self._oos('json.loads of %r' % (a[0],))
+        return self._from_json(a[0].value, k.get('object_hook'))
 
     # ------------------------------------------------------------------ operations of the environment (both worlds)
     def mkdir(self, name):
@@ -354,6 +623,7 @@ class World:
         for i in range(7, -1, -1):
             dg = (crc.t / (16 ** i)) % 16
             chars.append(mk_int(z3.If(dg < 10, dg + 48, dg + 55)))
+        self.hexnames.append((tuple(chars), crc))
         return mk_seq('str', chars + [ord(ch) for ch in '.json'])
 
     def put_file(self, dirpath, crc, table):
@@ -371,6 +641,28 @@ class World:
         p = dirpath + '/' + self.hex8_name(crc)
         with open(p, 'w') as f:
             f.write(json.dumps({g: {n: dict(ent) for n, ent in grp} for g, grp in table}, indent=2))
+        return p
+
+    def put_json(self, dirpath, crc, doc):
+        """a file named like a cache file that holds an arbitrary JSON document (python dict / list / str / int / None)"""
+        if self.sym:
+            from pyvc.values import PDict, PList
+            from pyvc.ops import seq_concat
+
+            def lift(v):
+                if isinstance(v, dict):
+                    return PDict([(kk, lift(vv)) for kk, vv in v.items()])
+                if isinstance(v, list):
+                    return PList([lift(x) for x in v])
+                return v
+            gf = _GFile(seq_concat(self.I, dirpath + '/', self.hex8_name(crc)), dirpath)
+            gf.chunks = [_jtext_class()(lift(doc))]
+            self.files.append(gf)
+            return gf
+        import json
+        p = dirpath + '/' + self.hex8_name(crc)
+        with open(p, 'w') as f:
+            f.write(json.dumps(doc, indent=2))
         return p
 
     def put_foreign_file(self, dirpath, name):
@@ -416,6 +708,15 @@ class World:
         import zlib
         with open(fh, 'w') as f:        # (cut + constant) mod length: every offset is reached by some cut, witnesses are spread
             f.write(text[:(cut + zlib.crc32(text.encode())) % len(text)])
+
+    def write_fails(self, where, cut):
+        """the next file opened for writing hits an I/O error (disk full) after a strict prefix of the text reached the
+        disk; the error is reported by write() or only by close() (`where`)"""
+        self.write_event = (where + '-fails', cut)
+
+    def during_write(self, hook, cut):
+        """while the next file opened for writing holds only a strict prefix of its text, hook() runs (another session)"""
+        self.write_event = ('during', hook, cut)
 
     def garble_file(self, fh):
         if self.sym:
@@ -464,12 +765,78 @@ class World:
             import glob
             import os
             import shutil
+            os.chdir(_CWD0[0])
             shutil.rmtree(self.root, True)
             vars(self.mod).pop('open', None)
             self.mod.glob, self.mod.os = glob.glob, os
 
 
+class _NatFile:
+    """native only: a real file opened for writing, with one scheduled event in the middle of the write.
+    ('write-fails', cut) the device reports an error after a strict prefix of the text was written;
+    ('close-fails', cut) the same, but reported by close(); ('during', hook, cut) hook() runs while a strict prefix of
+    the text is on the disk, then the write goes on."""
+
+    def __init__(self, f, ev):
+        self._f, self._ev, self._dead = f, ev, False
+
+    def _prefix(self, s):
+        import zlib
+        return s[:(self._ev[-1] + zlib.crc32(s.encode())) % len(s)] if s else s
+
+    def write(self, s):
+        ev = self._ev
+        if self._dead:
+            return len(s)
+        if ev is None:
+            return self._f.write(s)
+        if ev[0] == 'during':
+            self._ev = None
+            head = s[:(ev[-1]) % len(s)] if s else s
+            self._f.write(head)
+            self._f.flush()
+            ev[1]()
+            self._f.write(s[len(head):])
+            return len(s)
+        self._f.write(self._prefix(s))
+        self._f.flush()
+        self._dead = True
+        if ev[0] == 'write-fails':
+            self._ev = None
+            raise OSError(28, 'No space left on device')
+        return len(s)
+
+    def close(self):
+        ev, self._ev = self._ev, None
+        self._f.close()
+        if ev is not None and ev[0] == 'close-fails' and self._dead:
+            raise OSError(28, 'No space left on device')
+
+    def __enter__(self):
+        return self
+
+    def __exit__(self, *a):
+        self.close()
+        return False
+
+    def __getattr__(self, nm):
+        return getattr(self._f, nm)
+
+
 _JT = []
+_BT = []
+
+
+def _badtext_class():
+    """symbolic only: the content of a file that is not a JSON document (cut short, garbage, empty)"""
+    if not _BT:
+        from pyvc.values import Opaque
+
+        class _BadText(Opaque):
+            def __init__(self):
+                Opaque.__init__(self, 'text that is no JSON document')
+        _BT.append(_BadText)
+    return _BT[0]
 
 
 def _jtext_class():
@@ -489,9 +856,9 @@ def _jtext_class():
 # inputs
 # ----------------------------------------------------------------------------------------------------------------
 
-def fields(c, tag, kind):
-    """symbolic field values of one table entry"""
-    f = [('ident', c.int(tag + '_id', 0, 65535)), ('group', c.str(tag + '_g', 2)), ('name', c.str(tag + '_n', 2)),
+def fields(c, tag, kind, lo=32, hi=126):
+    """symbolic field values of one table entry (group and name: characters lo..hi; the device sends ISO-8859-1 bytes 1..255)"""
+    f = [('ident', c.int(tag + '_id', 0, 65535)), ('group', c.str(tag + '_g', 2, lo, hi)), ('name', c.str(tag + '_n', 2, lo, hi)),
          ('ctype', c.str(tag + '_ct', 3)), ('pytype', c.str(tag + '_pt', 2)), ('access', c.int(tag + '_acc', 0, 255))]
     if kind == 'param':
         f.append(('extended', c.bool(tag + '_x')))
@@ -641,16 +1008,53 @@ for _l in LAYOUTS:
     _select(_l)
 
 
+@contract('C11', 'fetch.select.two_files_per_directory', [TC + ':TocCache.__init__', TC + ':TocCache.fetch', TC + ':TocCache._decoder'],
+          clause=P_EQ + '; ' + P_ID + ' - four stored tables (A, B in the read-only, C, D in the read-write directory; any checksums, distinct '
+          'within a directory), any announced checksum: the table handed out was stored under exactly that checksum, and a stored '
+          'table is found',
+          bounded='two single-entry tables per directory', thorough_only=True, max_paths=4000)
+def select_two(c):
+    w = World(c)
+    ro, rw = w.mkdir('ro'), w.mkdir('rw')
+    c.let('ro', ro), c.let('rw', rw)
+    crc = c.int('crc', 0, 2 ** 32 - 1)
+    stored = []
+    for tag, d in (('a', ro), ('b', ro), ('c', rw), ('d', rw)):
+        kind = c.choice('kind_' + tag, ['log', 'param']) if tag in ('a', 'c') else 'log'
+        f = fields(c, tag, kind)
+        w.put_file(d, c.int('crc_' + tag, 0, 2 ** 32 - 1), [(dict(f)['group'], [(dict(f)['name'], entry(kind, f))])])
+        c.let('flat_' + tag, (flat_of(kind, f),))
+        stored.append(tag)
+    c.require('crc_a != crc_b and crc_c != crc_d')
+    cache = c.new(TC + ':TocCache', ro_cache=ro, rw_cache=rw)
+    c.let('n_ro', w.listing(ro))
+    c.reset_trace()
+    c.call((cache, 'fetch'), crc)
+    c.ensure('no-exception', 'raised is None')
+    if c.get('result') is None:
+        c.ensure('stored-table-is-found', ' and '.join('crc != crc_%s' % t for t in stored))
+    else:
+        c.ensure('used-only-under-the-announced-checksum-and-identical',
+                 ' or '.join('(crc == crc_%s and flat(result) == flat_%s)' % (t, t) for t in stored))
+    c.ensure('only-a-file-named-by-the-announced-checksum-is-opened',
+             'all(e[1][0] == ro + "/%08X.json" % crc or e[1][0] == rw + "/%08X.json" % crc for e in sent("open"))')
+    c.ensure('fetch-writes-nothing', 'writes() == () and len(calls("os.makedirs")) == 0')
+    c.let('n_ro2', w.listing(ro))
+    c.ensure('ro-directory-unchanged', RO_UNCHANGED)
+    w.close()
+
+
 @contract('C11', 'fetch.foreign-file-names', [TC + ':TocCache.__init__', TC + ':TocCache.fetch', TC + ':TocCache._decoder'],
           clause=P_EQ + '; an otherwise unparsable cache file is a miss, never a failed connection - also a *.json in a cache directory whose '
                  'NAME is not a checksum (index.json, README.json: not written by the library): the cache object is still constructed and the '
                  'tables stored under their checksum are still found',
-          bounded='one single-entry table in the read-write directory; foreign names index.json / README.json / 12.json in both directories')
+          bounded='one single-entry table in the read-write directory; foreign names index.json / README.json / 12.json / '
+                  '"0BADC0DE (copy).json" / toc.cache.json in both directories')
 def fetch_foreign_names(c):
     w = World(c)
     ro, rw = w.mkdir('ro'), w.mkdir('rw')
     c.let('ro', ro), c.let('rw', rw)
-    name = c.choice('foreign_name', ['index.json', 'README.json', '12.json'])
+    name = c.choice('foreign_name', ['index.json', 'README.json', '12.json', '0BADC0DE (copy).json', 'toc.cache.json'])
     w.put_foreign_file(ro, name)
     w.put_foreign_file(rw, name)
     crc = c.int('crc', 0, 2 ** 32 - 1)
@@ -674,22 +1078,28 @@ def fetch_foreign_names(c):
     w.close()
 
 
-def _other_version(kind):
+def _other_version(kind, pairs=False):
     allkeys = KEYS + (('extended',) if kind == 'param' else ())
+    opts = {'thorough_only': True} if pairs else {}
 
-    @contract('C11', 'fetch.other_version.' + kind, [TC + ':TocCache.__init__', TC + ':TocCache.fetch', TC + ':TocCache._decoder'],
-              clause=P_MISS + ' - a well-formed file of another library version whose entries lack one of the fields '
-              '(or carry one more) is a miss unless every field of the element class is present; no field is ever made up',
-              bounded='single-entry table; at most one missing key')
+    @contract('C11', 'fetch.other_version.' + kind + ('.two_missing' if pairs else ''),
+              [TC + ':TocCache.__init__', TC + ':TocCache.fetch', TC + ':TocCache._decoder'],
+              clause=P_MISS + ' - a well-formed file of another library version whose entries lack %s of the fields '
+              '(or carry one more) is a miss unless every field of the element class is present; no field is ever made up'
+              % ('two' if pairs else 'one'),
+              bounded='single-entry table; %s' % ('every pair of missing keys' if pairs else 'at most one missing key'), **opts)
     def k(c):
         w = World(c)
         where = c.choice('where', ['ro', 'rw'])
         d = w.mkdir(where)
         crc = c.int('crc', 0, 2 ** 32 - 1)
         f = fields(c, 'e', 'param')            # all seven keys; a log entry with 'extended' is the "one more" case
-        missing = c.choice('missing', [None] + list(allkeys))
-        c.let('complete', missing is None)
-        written = [(kk, vv) for kk, vv in f if kk != missing]
+        if pairs:
+            missing = c.choice('missing', [(a, b) for i, a in enumerate(allkeys) for b in allkeys[i + 1:]])
+        else:
+            missing = (c.choice('missing', [None] + list(allkeys)),)
+        c.let('complete', missing == (None,))
+        written = [(kk, vv) for kk, vv in f if kk not in missing]
         w.put_file(d, crc, [(dict(f)['group'], [(dict(f)['name'], entry(kind, written))])])
         c.let('expected', (flat_of(kind, [(kk, vv) for kk, vv in f if kk in allkeys]),))
         cache = c.new(TC + ':TocCache', **{where + '_cache': d})
@@ -708,6 +1118,7 @@ def _other_version(kind):
 
 for _k in ('log', 'param'):
     _other_version(_k)
+    _other_version(_k, pairs=True)
 
 
 @contract('C11', 'fetch.damaged', [TC + ':TocCache.__init__', TC + ':TocCache.fetch'],
@@ -746,23 +1157,24 @@ def fetch_damaged(c):
 # O3  __init__ / insert: what is written, and where
 # ----------------------------------------------------------------------------------------------------------------
 
-def table_of(c, kind, n, tag='t'):
+def table_of(c, kind, n, tag='t', lo=32, hi=126):
     """a table of n entries built by the real Toc.add_element; returns (toc object, field lists)"""
     toc = c.new(TOCM + ':Toc')
     fl = []
     for i in range(n):
-        f = fields(c, '%s%d' % (tag, i), kind)
+        f = fields(c, '%s%d' % (tag, i), kind, lo, hi)
         fl.append(f)
         c.call((toc, 'add_element'), element(c, kind, f))
     c.let(tag + '_toc', toc)
     return toc, fl
 
 
-def _writes(layout):
-    @contract('C11', 'insert.writes.' + layout, [TC + ':TocCache.__init__', TC + ':TocCache.insert', TC + ':TocCache._encoder'],
+def _writes(layout, sizes=(0, 1), **opts):
+    @contract('C11', 'insert.writes.' + layout + ('' if sizes == (0, 1) else '.n' + ''.join(str(x) for x in sizes)),
+              [TC + ':TocCache.__init__', TC + ':TocCache.insert', TC + ':TocCache._encoder'],
               clause=P_RO + ' - directories: ' + layout.replace('_', ' + ') + '; constructing the cache creates at most the read-write '
               'directory; insert never raises, also when the read-write directory has disappeared',
-              bounded='tables of 0 or 1 entries; at most one pre-existing file in the read-write directory')
+              bounded='tables of %s entries; at most one pre-existing file in the read-write directory' % ' or '.join(str(x) for x in sizes), **opts)
     def k(c):
         w = World(c)
         ro, rw, rw_exists = make_dirs(c, w, layout)
@@ -782,7 +1194,7 @@ def _writes(layout):
         c.ensure('constructor-creates-at-most-the-rw-directory', 'all(e[1] == (rw,) for e in sent("os.makedirs"))')
         c.let('rw_now', w.listing(rw))
         c.ensure('rw-directory-exists-afterwards', 'rw is None or rw_now is not None')
-        n = c.choice('entries', [0, 1])
+        n = c.choice('entries', list(sizes))
         toc, fl = table_of(c, c.choice('kind', ['log', 'param']) if n else 'log', n)
         gone = rw is not None and c.choice('rw_disappears', [False, True])
         if gone:
@@ -803,27 +1215,30 @@ def _writes(layout):
 
 for _l in list(LAYOUTS) + list(RO_MISSING_LAYOUTS):
     _writes(_l)
+for _l in ('ro_rw', 'ro_missing_rw_new'):
+    _writes(_l, sizes=(2, 3), thorough_only=True)
 
 
 # ----------------------------------------------------------------------------------------------------------------
 # histories: store, (crash), (restart), load
 # ----------------------------------------------------------------------------------------------------------------
 
-def _history(kind, n):
-    @contract('C11', 'history.store_load.%s%d' % (kind, n),
+def _history(kind, n, latin1=False, **opts):
+    @contract('C11', 'history.store_load.%s%d%s' % (kind, n, '.latin1' if latin1 else ''),
               [TC + ':TocCache.__init__', TC + ':TocCache.insert', TC + ':TocCache.fetch', TC + ':TocCache._encoder',
                TC + ':TocCache._decoder', TOCM + ':Toc.add_element'],
               clause=P_ID + '; ' + P_MISS + ' - history: first session downloads a table and stores it; the write may be cut short at any '
               'byte or the file deleted; the same or a later session (old directory read-write or read-only) asks for the same '
               'checksum; after a miss the table is stored again and then found',
-              bounded='%s table with %d entr%s' % (kind, n, 'y' if n == 1 else 'ies'))
+              bounded='%s table with %d entr%s%s' % (kind, n, 'y' if n == 1 else 'ies', '; group and name over all characters a device '
+                                                      'can send (ISO-8859-1 1..255, control characters included)' if latin1 else ''), **opts)
     def k(c):
         w = World(c)
         rw = w.dirpath('rw')                     # does not exist yet: first start of a client
         c.let('rw', rw)
         crc = c.int('crc', 0, 2 ** 32 - 1)
         cache = c.new(TC + ':TocCache', rw_cache=rw)
-        toc, fl = table_of(c, kind, n)
+        toc, fl = table_of(c, kind, n, 't', *((1, 255) if latin1 else (32, 126)))
         c.snapshot('table', 't_toc.toc')
         c.snapshot('stored', 'flat(table)')
         c.let('n', n)
@@ -873,6 +1288,10 @@ def _history(kind, n):
 
 for _k, _n in (('log', 1), ('param', 1), ('log', 2), ('param', 2), ('log', 0)):
     _history(_k, _n)
+for _k, _n in (('log', 3), ('param', 3), ('log', 4)):                         # larger tables: thorough tier
+    _history(_k, _n, thorough_only=True)
+for _k in ('log', 'param'):                                                # D1 sampled on non-ASCII / control characters
+    _history(_k, 1, latin1=True, thorough_only=True)
 
 
 @contract('C11', 'history.other_checksum', [TC + ':TocCache.__init__', TC + ':TocCache.insert', TC + ':TocCache.fetch'],
@@ -1082,3 +1501,577 @@ def _collision(first, second):
 
 _collision('log', 'param')
 _collision('param', 'log')
+
+
+# ----------------------------------------------------------------------------------------------------------------
+# additions of the extension round
+# ----------------------------------------------------------------------------------------------------------------
+
+CFM = 'cflib.crazyflie'
+SWM = 'cflib.crazyflie.swarm'
+
+
+@contract('C11', 'toc.clear', [TOCM + ':Toc.clear', TOCM + ':Toc.add_element'],
+          clause='never a partial or wrong table - Toc.clear leaves an empty table behind; entries added afterwards make up the whole new '
+          'table (nothing of the old one comes back)',
+          bounded='one entry before, one entry after')
+def toc_clear(c):
+    World(c).close()                               # only the spec helpers flat() / writes()
+    kind = c.choice('kind', ['log', 'param'])
+    toc, fl = table_of(c, kind, 1)
+    c.call((toc, 'clear'))
+    c.ensure('cleared', 'raised is None and len(t_toc.toc) == 0 and flat(t_toc.toc) == ()')
+    f2 = fields(c, 'u', kind)
+    c.call((toc, 'add_element'), element(c, kind, f2))
+    c.let('want', (flat_of(kind, f2),))
+    c.ensure('only-the-new-entry', 'raised is None and flat(t_toc.toc) == want')
+
+
+# ---------------------------------------------------------------- the fetcher stores a table only when it is complete
+
+def _download_n(v2, n, thorough_only=False):
+    opts = {'thorough_only': True} if thorough_only else {}
+
+    @contract('C11', 'fetcher.download_store.v%d.n%d' % (2 if v2 else 1, n), [TOCM + ':TocFetcher._new_packet_cb', TOCM + ':Toc.add_element'],
+              clause=P_EQ + '; never a partial table - history: after a miss nothing is stored under the announced checksum while the '
+              'download is still going on (a connection that dies half way leaves no partial table in the cache); the complete table is '
+              'stored exactly once, under the checksum of the info reply',
+              bounded='%d-item table (the element decoding itself is C03); the last item reply is arbitrary, the earlier ones carry the '
+              'requested index' % n, **opts)
+    def k(c):
+        port = c.choice('port', [5, 2])
+        cache = c.ext('cache', returns={'fetch': None})
+        elems = [element(c, 'log', [('ident', i), ('group', 'g'), ('name', 'n%d' % i), ('ctype', 'float'), ('pytype', '<f'), ('access', 0)])
+                 for i in range(n)]
+        made = []
+
+        def make(_i, args, _k):
+            made.append(1)
+            return elems[len(made) - 1]
+        f = fetcher(c, v2, cache, c.ext('element_class', returns={'()': make}), port)
+        pk = info_packet(c, v2, port)
+        c.let('n', n)
+        c.require('items == n')
+        c.call((f, '_new_packet_cb'), pk)
+        c.require('raised is None')
+        c.reset_trace()
+        for i in range(n - 1):
+            item = c.bytes('item%d' % i, 8)
+            c.require(('item%d[1] + 256 * item%d[2] == %d' if v2 else 'item%d[1] + 0 * item%d[2] == %d') % (i, i, i))
+            c.call((f, '_new_packet_cb'), c.new(STK + ':CRTPPacket', port << 4, item))
+            c.ensure('no-exception-%d' % i, 'raised is None')
+            c.ensure('nothing-stored-before-the-table-is-complete-%d' % i,
+                     'len(sent("cache.insert")) == 0 and len(sent("finished")) == 0 and len(sent("cf.send_packet")) == %d' % (i + 1))
+        item = c.bytes('item', 8)
+        c.snapshot('ident', '(item[1] + 256 * item[2])' if v2 else 'item[1]')
+        c.snapshot('before', 'len(trace)')
+        c.call((f, '_new_packet_cb'), c.new(STK + ':CRTPPacket', port << 4, item))
+        c.ensure('no-exception', 'raised is None')
+        c.let('elems', tuple(elems))
+        if len(c.get('trace')) == c.get('before'):
+            c.ensure('only-an-unrequested-item-is-ignored', 'ident != n - 1 and sum(len(g) for g in holder.toc.values()) == n - 1')
+        else:
+            c.ensure('requested-item', 'ident == n - 1')
+            c.ensure('stored-once-under-the-announced-checksum',
+                     'sent("cache.insert") == (("cache.insert", (crc, holder.toc), {}),) and len(sent("finished")) == 1')
+            c.ensure('stored-table-is-the-complete-downloaded-one',
+                     'is_same(sent("cache.insert")[0][1][1], holder.toc) and len(holder.toc) == 1 and '
+                     'tuple(holder.toc["g"].items()) == tuple(("n%d" % i, elems[i]) for i in range(n))')
+        c.ensure('cache-not-asked-again', 'len(sent("cache.fetch")) == 0')
+    return k
+
+
+for _v2 in (True, False):
+    _download_n(_v2, 2)
+    _download_n(_v2, 3)
+    _download_n(_v2, 6, thorough_only=True)
+
+
+def _store_step(v2):
+    @contract('C11', 'fetcher.store_only_when_complete.v%d' % (2 if v2 else 1), [TOCM + ':TocFetcher._new_packet_cb', TOCM + ':Toc.add_element'],
+              clause=P_EQ + '; never a partial table - one step of the download, for ANY table size N and ANY outstanding index r < N: the reply '
+              'for entry r stores nothing unless r is the last entry; then the table is stored once, under the checksum of the info reply '
+              '(with fetcher.download_store.* as base case this is the induction step over the download)')
+    def k(c):
+        port = c.choice('port', [5, 2])
+        cache = c.ext('cache', returns={'fetch': None})
+        elem = element(c, 'log', [('ident', 0), ('group', 'g'), ('name', 'n'), ('ctype', 'float'), ('pytype', '<f'), ('access', 0)])
+        c.let('elem', elem)
+        f = fetcher(c, v2, cache, c.ext('element_class', returns={'()': elem}), port)
+        pk = info_packet(c, v2, port)
+        c.require('items > 0')
+        c.call((f, '_new_packet_cb'), pk)
+        c.require('raised is None')
+        # the r earlier steps: entry r is outstanding (the only state the steps change besides the table itself)
+        r = c.int('r', 0, 65534 if v2 else 254)
+        c.require('r < items')
+        c.set(f, 'requested_index', r)
+        item = c.bytes('item', 8)
+        c.require('(item[1] + 256 * item[2]) == r' if v2 else 'item[1] == r')
+        c.reset_trace()
+        c.call((f, '_new_packet_cb'), c.new(STK + ':CRTPPacket', port << 4, item))
+        c.ensure('no-exception', 'raised is None')
+        c.ensure('stored-iff-this-was-the-last-entry', 'iff(len(sent("cache.insert")) > 0, r == items - 1)')
+        c.ensure('stored-at-most-once-under-the-announced-checksum-and-it-is-the-fetchers-table',
+                 'all(e[1][0] == crc and is_same(e[1][1], holder.toc) for e in sent("cache.insert")) and len(sent("cache.insert")) <= 1')
+        c.ensure('finished-iff-stored', 'len(sent("finished")) == len(sent("cache.insert"))')
+        c.ensure('next-entry-requested-otherwise', 'len(sent("cf.send_packet")) == (0 if r == items - 1 else 1)')
+        c.ensure('cache-not-asked-again', 'len(sent("cache.fetch")) == 0')
+    return k
+
+
+_store_step(True)
+_store_step(False)
+
+
+# ---------------------------------------------------------------- the directories given to Crazyflie / CachedCfFactory reach the cache unswapped
+
+def _cf_dirs(layout, via):
+    @contract('C11', 'crazyflie.cache_directories.%s.%s' % (via, layout),
+              [CFM + ':Crazyflie.__init__', CFM + ':Crazyflie._platform_info_fetched', CFM + ':Crazyflie._mems_updated_cb',
+               TC + ':TocCache.__init__', TC + ':TocCache.fetch', TC + ':TocCache.insert'] +
+              ([SWM + ':CachedCfFactory.__init__', SWM + ':CachedCfFactory.construct'] if via == 'factory' else []),
+              clause=P_RO + '; for all combinations of read-only and read-write cache directories - the directories given to %s reach '
+              'the table cache in their roles: tables lying in either directory are found, a downloaded table is written to the read-write '
+              'directory only, the read-only directory is left as it was - checked on the cache object(s) the connection sequence hands to '
+              'the log and to the parameter fetcher; directories: %s%s' % ('Crazyflie(ro_cache=, rw_cache=)' if via == 'crazyflie' else
+                                                              'CachedCfFactory(ro_cache=, rw_cache=).construct(uri)', layout.replace('_', ' + '),
+                                                              ' (no directory given at all: the defaults - nothing is read, created or written)'
+                                                              if layout == 'none' else ''),
+              bounded='one single-entry table per directory, stored under two fixed checksums')
+    def k(c):
+        w = World(c)
+        c.virtual_time()
+        ro, rw, rw_exists = make_dirs(c, w, layout)
+        crc = c.int('crc', 0, 2 ** 32 - 1)
+        has_a, has_b = ro is not None and layout not in RO_MISSING_LAYOUTS, rw is not None and rw_exists
+        # which checksum selects which file is fetch.select.*; here the two stored checksums are fixed
+        c.let('crc_a', 0x0BADC0DE), c.let('crc_b', 0x00C0FFEE)
+        if has_a:
+            fa = fields(c, 'a', 'log')
+            w.put_file(ro, c.get('crc_a'), [(dict(fa)['group'], [(dict(fa)['name'], entry('log', fa))])])
+            c.let('flat_a', (flat_of('log', fa),))
+        if has_b:
+            fb = fields(c, 'b', 'param')
+            w.put_file(rw, c.get('crc_b'), [(dict(fb)['group'], [(dict(fb)['name'], entry('param', fb))])])
+            c.let('flat_b', (flat_of('param', fb),))
+        c.let('n_ro', w.listing(ro))
+        c.reset_trace()
+        given = {kk: vv for kk, vv in (('ro_cache', ro), ('rw_cache', rw)) if vv is not None}     # 'none': the defaults
+        if via == 'crazyflie':
+            c.call(c.cls(CFM + ':Crazyflie'), **given)
+            c.ensure('crazyflie-object-constructed', 'raised is None')
+            cf = c.get('result')
+        else:
+            factory = c.new(SWM + ':CachedCfFactory', **given)
+            c.call((factory, 'construct'), 'radio://0/80/2M')
+            c.ensure('crazyflie-object-constructed', 'raised is None')
+            cf = c.getfield(c.get('result'), 'cf') if c.get('raised') is None else None
+        if c.get('raised') is not None:
+            w.close()
+            return
+        c.let('trace', w.calls_so_far())
+        c.ensure('construction-writes-no-file-and-creates-at-most-the-rw-directory',
+                 'writes() == () and all(e[1] == (rw,) and rw is not None for e in sent("os.makedirs"))')
+        # the connection sequence: platform information -> log table -> memories -> parameter table; what it hands to the two
+        # fetchers is the cache whose directories are checked below
+        c.set(cf, 'log', c.ext('log'))
+        c.set(cf, 'param', c.ext('param'))
+        c.reset_trace()
+        c.call((cf, '_platform_info_fetched'))
+        c.ensure('log-table-requested-once', 'raised is None and len(sent("log.refresh_toc")) == 1')
+        c.call((cf, '_mems_updated_cb'))
+        c.ensure('parameter-table-requested-once', 'raised is None and len(sent("param.refresh_toc")) == 1')
+        c.snapshot('handed', 'tuple(tuple(x for x in tuple(e[1]) + tuple(e[2].values()) if typename(x) == "TocCache") '
+                   'for e in sent("log.refresh_toc") + sent("param.refresh_toc"))')
+        c.ensure('each-fetcher-gets-a-table-cache', 'len(handed) == 2 and all(len(h) == 1 for h in handed)')
+        caches = []
+        for h in c.get('handed'):
+            for x in h:
+                if not any(x is y for y in caches):
+                    caches.append(x)
+        toc, fl = table_of(c, 'log', 1)
+        c.snapshot('table', 't_toc.toc')
+        for i, cache in enumerate(caches):
+            if has_a:
+                c.call((cache, 'fetch'), c.get('crc_a'))
+                c.ensure('table-in-the-read-only-directory-is-found-%d' % i, 'raised is None and result is not None and flat(result) == flat_a')
+            if has_b:
+                c.call((cache, 'fetch'), c.get('crc_b'))
+                c.ensure('table-in-the-read-write-directory-is-found-%d' % i, 'raised is None and result is not None and flat(result) == flat_b')
+            c.reset_trace()
+            c.call((cache, 'insert'), crc, c.get('table'))
+            c.ensure('downloaded-table-goes-to-the-read-write-directory-only-%d' % i,
+                     'raised is None and writes() == ((rw + "/%08X.json" % crc,) if rw is not None else ())')
+        c.let('n_ro2', w.listing(ro))
+        c.ensure('ro-directory-unchanged', RO_UNCHANGED)
+        w.close()
+    return k
+
+
+for _l in ('ro_rw', 'ro_rw_new', 'ro', 'rw', 'none', 'ro_missing_rw'):
+    _cf_dirs(_l, 'crazyflie')
+for _l in ('ro_rw', 'ro', 'rw_new', 'none'):
+    _cf_dirs(_l, 'factory')
+
+
+# ---------------------------------------------------------------- two connections, end to end: real Log / Param, real fetcher, real cache, real elements
+
+class Radio:
+    """The Crazyflie object as the log / parameter subsystems see it, with the device at the other end: transmissions are
+    queued, run() lets the device answer them one by one, each answer is delivered to every callback registered for its
+    port at that moment, in registration order (what the dispatcher does, C07)."""
+
+    def __init__(self, c, v2):
+        self.c, self.v2 = c, v2
+        self.cbs, self.outbox = [], []
+        self.n = 0
+        self.item_requests = 0
+        self.table = None               # (kind, crc expression, [(type byte, group bytes name, name bytes name), ...])
+        self.cf = c.ext('cf', attrs={'link': c.ext('link')},
+                        returns={'platform.get_protocol_version': 4 if v2 else 3, 'add_port_callback': self._add,
+                                 'remove_port_callback': self._remove, 'send_packet': self._send})
+
+    @staticmethod
+    def _same(a, b):
+        if hasattr(a, 'self_obj'):
+            return a.self_obj is b.self_obj and a.func is b.func
+        return a == b
+
+    def _send(self, _i, args, _kw):
+        self.outbox.append(args[0])
+
+    def _add(self, _i, args, _kw):
+        self.cbs.append((args[0], args[1]))
+
+    def _remove(self, _i, args, _kw):
+        for it in list(self.cbs):
+            if it[0] == args[0] and self._same(it[1], args[1]):
+                self.cbs.remove(it)
+                return
+
+    def deliver(self, port, channel, data_expr):
+        c = self.c
+        self.n += 1
+        c.snapshot('rx%d' % self.n, data_expr)
+        pk = c.new(STK + ':CRTPPacket', (port << 4) | channel, c.get('rx%d' % self.n))
+        for p, cb in list(self.cbs):
+            if p == port:
+                c.call(cb, pk)
+                c.ensure('delivery-%d-no-exception' % self.n, 'raised is None')
+
+    def answer(self, pk):
+        """the device's answer to one request: (port, channel, data expression) or None"""
+        c = self.c
+        c.let('rq', pk)
+        port, chan, cmd = c.concretize('rq.port'), c.concretize('rq.channel'), c.concretize('rq.data[0]')
+        kind, crc, entries = self.table
+        if port == 5 and chan == 1 and cmd == 5:
+            return 5, 1, 'bytes([5, 0, 0])'
+        if port != {'log': 5, 'param': 2}[kind] or chan != 0:
+            return None
+        if cmd == 3:
+            return port, 0, "pack('<BHI', 3, %d, %s)" % (len(entries), crc)
+        if cmd == 1:
+            return port, 0, "pack('<BBI', 1, %d, %s)" % (len(entries), crc)
+        if cmd in (2, 0):
+            self.item_requests += 1
+            i = c.concretize('rq.data[1] + 256 * rq.data[2]' if cmd == 2 else 'rq.data[1]')
+            head = "pack('<BH', 2, %d)" % i if cmd == 2 else "pack('<BB', 0, %d)" % i
+            if not 0 <= i < len(entries):
+                return port, 0, head
+            t, g, n = entries[i]
+            return port, 0, head + ' + bytes([%d]) + %s + bytes([0]) + %s + bytes([0])' % (t, g, n)
+        return None
+
+    def run(self, limit=16):
+        while self.outbox and limit > 0:
+            limit -= 1
+            reply = self.answer(self.outbox.pop(0))
+            if reply is not None:
+                self.deliver(*reply)
+
+
+LOG_T = ((7, 'float', '<f'), (2, 'uint16_t', '<H'), (4, 'int8_t', '<b'))
+
+
+def device_table(c, kind, tag, n, crc, symbolic_names=True):
+    """a device table of n entries -> (Radio.table value, expected flat(table) of the library)"""
+    entries, flat = [], []
+    for i in range(n):
+        g, nm = '%s_g%d' % (tag, i), '%s_n%d' % (tag, i)
+        if symbolic_names:
+            c.bytes(g, 2), c.bytes(nm, 2)
+            c.require('all(b != 0 and b != 46 for b in %s) and all(b != 0 and b != 46 for b in %s)' % (g, nm))
+        else:
+            c.let(g, ('%sg' % tag[-1:]).encode()), c.let(nm, ('q%d' % i).encode())
+        for j in range(i):                                  # (group, name) pairs of a device table are unique
+            c.require('not (%s == %s_g%d and %s == %s_n%d)' % (g, tag, j, nm, tag, j))
+        G = c.snapshot(g.upper(), "%s.decode('ISO-8859-1')" % g)
+        N = c.snapshot(nm.upper(), "%s.decode('ISO-8859-1')" % nm)
+        if kind == 'log':
+            t, ct, pt = LOG_T[i % len(LOG_T)]
+            flat.append((G, N, 'LogTocElement', i, G, N, ct, pt, 0, None))
+        else:
+            ext = c.choice('%s_x%d' % (tag, i), [False, True]) if i == 0 else False
+            ro = i % 2 == 1
+            t = 0x08 | (0x10 if ext else 0) | (0x40 if ro else 0)
+            flat.append((G, N, 'ParamTocElement', i, G, N, 'uint8_t', '<B', 1 if ro else 0, ext))
+        entries.append((t, g, nm))
+    return (kind, crc, entries), tuple(flat)
+
+
+def _session(kind, n, thorough_only=False):
+    opts = {'thorough_only': True} if thorough_only else {}
+    sub_f = ([LOG + ':Log.refresh_toc', LOG + ':Log._new_packet_cb', LOG + ':LogTocElement.__init__'] if kind == 'log' else
+             [PAR + ':Param.refresh_toc', PAR + ':Param._disconnected', PAR + ':Param._connection_requested', PAR + ':ParamTocElement.__init__',
+              PAR + ':_ExtendedTypeFetcher.request_extended_types'])
+
+    @contract('C11', 'session.%s.n%d' % (kind, n),
+              sub_f + [TOCM + ':TocFetcher.start', TOCM + ':TocFetcher._new_packet_cb', TOCM + ':Toc.add_element', TC + ':TocCache.__init__',
+                       TC + ':TocCache.fetch', TC + ':TocCache.insert', TC + ':TocCache._encoder', TC + ':TocCache._decoder'],
+              clause=P_EQ + '; ' + P_ID + ' - two connections, end to end (real %s subsystem, fetcher, cache and element classes): the first '
+              'connection downloads the device table and stores it; a second connection to a device announcing the same checksum (same '
+              'objects after a reconnect, or a new process) takes the table from the cache without requesting a single entry and it is '
+              'entry-for-entry the downloaded one%s; a second connection to a device announcing ANOTHER checksum downloads that device\'s '
+              'table - nothing of the first table is used, kept or stored under the new checksum, and the first table stays available '
+              'under its own checksum' % ('log' if kind == 'log' else 'parameter',
+                                          ' (the persistence query goes to exactly the entries whose extended marker the device had set)'
+                                          if kind == 'param' else ''),
+              bounded='first table of %d entr%s (two-byte group and name, any bytes; fixed types), second table of one entry; both protocol '
+              'generations' % (n, 'y' if n == 1 else 'ies'), max_paths=600, **opts)
+    def k(c):
+        w = World(c)
+        c.virtual_time()
+        # the same entries, in any order (a table is a mapping; entries of one group are kept together)
+        c.snapshot('same_entries', 'lambda a, b: len(a) == len(b) and all(any(x == y for y in b) for x in a)')
+        rw = w.dirpath('rw')
+        c.let('rw', rw), c.let('ro', None)
+        v2 = c.choice('v2', [True, False])
+        second = c.choice('second', ['same-objects', 'new-process', 'other-device'])
+        # which checksum selects which file is decided for all checksums in fetch.select.* / fetcher.info_reply.*; here: boundary values
+        c.let('crc', c.choice('crc_first', [0x0BADC0DE, 0, 0xFFFFFFFF]))
+        radio = Radio(c, v2)
+        radio.table, want1 = device_table(c, kind, 'd', n, 'crc')
+        c.let('want1', want1)
+        cache = c.new(TC + ':TocCache', rw_cache=rw)
+        sub = c.new((LOG + ':Log') if kind == 'log' else (PAR + ':Param'), radio.cf)
+        c.let('sub', sub), c.let('n', n)
+
+        def connect(tag):
+            done = c.ext('toc_done_' + tag)
+            radio.item_requests = 0
+            c.reset_trace()
+            c.call((sub, 'refresh_toc'), done, cache)
+            c.ensure('refresh-no-exception-' + tag, 'raised is None')
+            radio.run()
+            c.snapshot('trace', 'trace')
+            c.let('item_requests', radio.item_requests)
+
+        # ---- first connection: nothing cached
+        connect('1')
+        c.ensure('first-connection-downloads-every-entry', 'item_requests == n')
+        c.ensure('first-table-is-the-device-table', 'sub.toc is not None and same_entries(flat(sub.toc.toc), want1)')
+        c.snapshot('first', 'flat(sub.toc.toc) if sub.toc is not None else None')
+        c.ensure('first-table-stored-under-the-announced-checksum', 'writes() == (rw + "/%08X.json" % crc,)')
+        c.ensure('first-completion-signalled', 'len(sent("toc_done_1")) + len(sent("thread:_ExtendedTypeFetcher.start")) == 1')
+        # ---- second connection
+        if second == 'new-process':
+            radio2 = Radio(c, v2)
+            radio2.table = radio.table
+            radio = radio2
+            cache = c.new(TC + ':TocCache', rw_cache=rw)
+            sub = c.new((LOG + ':Log') if kind == 'log' else (PAR + ':Param'), radio.cf)
+            c.let('sub', sub)
+        elif kind == 'param':
+            c.call((sub, '_disconnected'), 'radio://0/80/2M')
+            c.ensure('disconnect-no-exception', 'raised is None')
+            c.call((sub, '_connection_requested'), 'radio://0/80/2M')
+            c.ensure('connection-request-no-exception', 'raised is None')
+        if second == 'other-device':
+            c.let('crc2', c.choice('crc_second', [c.get('crc') ^ 1, c.get('crc') ^ 0x80000000, 0x00C0FFEE]))
+            radio.table, want2 = device_table(c, kind, 'e', 1, 'crc2', symbolic_names=False)
+            c.let('want2', want2)
+            connect('2')
+            c.ensure('other-device-table-is-downloaded', 'item_requests == 1')
+            c.ensure('table-is-the-second-device-table-only', 'sub.toc is not None and flat(sub.toc.toc) == want2')
+            c.ensure('stored-under-the-second-checksum-only', 'writes() == (rw + "/%08X.json" % crc2,)')
+            c.call((cache, 'fetch'), c.get('crc2'))
+            c.ensure('second-checksum-yields-the-second-table', 'raised is None and result is not None and flat(result) == want2')
+            c.call((cache, 'fetch'), c.get('crc'))
+            c.ensure('first-checksum-still-yields-the-first-table', 'raised is None and result is not None and flat(result) == first')
+        else:
+            connect('2')
+            c.ensure('cached-table-used-no-entry-requested', 'item_requests == 0')
+            c.ensure('loaded-table-identical-to-the-downloaded-one', 'sub.toc is not None and flat(sub.toc.toc) == first')
+            c.ensure('loaded-table-is-the-device-table', 'sub.toc is not None and same_entries(flat(sub.toc.toc), want1)')
+            c.ensure('nothing-written', 'writes() == ()')
+            if kind == 'log':
+                c.ensure('completion-signalled-once', 'len(sent("toc_done_2")) == 1')
+            else:
+                ext = tuple(i for i, e in enumerate(want1) if e[9])
+                c.let('EXT', ext)
+                if not ext:
+                    c.ensure('completion-signalled-once', 'len(sent("toc_done_2")) == 1 and len(sent("thread:_ExtendedTypeFetcher.start")) == 0')
+                else:
+                    c.ensure('persistence-query-started', 'len(sent("toc_done_2")) == 0 and len(sent("thread:_ExtendedTypeFetcher.start")) == 1')
+                    if sum(1 for e in c.get('trace') if e[0] == 'thread:_ExtendedTypeFetcher.start') == 1:
+                        c.snapshot('xf', 'sent("thread:_ExtendedTypeFetcher.start")[0][1][0]')
+                        c.ensure('persistence-query-for-exactly-the-entries-marked-extended',
+                                 "tuple(bytes(p.data) for p in xf.request_queue.queue) == tuple(pack('<BH', 2, j) for j in EXT)")
+        w.close()
+    return k
+
+
+for _k in ('log', 'param'):
+    _session(_k, 1)
+    _session(_k, 2)
+    _session(_k, 3, thorough_only=True)
+
+
+# ---------------------------------------------------------------- I/O error in the middle of the write; a reader during the write
+
+def _write_error(kind):
+    @contract('C11', 'history.write_error.' + kind,
+              [TC + ':TocCache.__init__', TC + ':TocCache.insert', TC + ':TocCache.fetch', TC + ':TocCache._encoder', TC + ':TocCache._decoder'],
+              clause=P_MISS + ' - history: the write of the cache file fails half way (disk full; the error is reported by write() or only by '
+              'close()), with or without an older complete file of that checksum in the directory: storing never raises (the connection '
+              'goes on), what is left on the disk is a miss for this and for later sessions, never a partial table, and a later complete '
+              'store repairs it',
+              bounded='single-entry %s table' % kind)
+    def k(c):
+        w = World(c)
+        rw = w.mkdir('rw')
+        c.let('rw', rw), c.let('ro', None)
+        crc = c.int('crc', 0, 2 ** 32 - 1)
+        if c.choice('older_file', [False, True]):
+            fo = fields(c, 'o', kind)
+            w.put_file(rw, crc, [(dict(fo)['group'], [(dict(fo)['name'], entry(kind, fo))])])
+        cache = c.new(TC + ':TocCache', rw_cache=rw)
+        toc, fl = table_of(c, kind, 1)
+        c.snapshot('table', 't_toc.toc')
+        c.snapshot('stored', 'flat(table)')
+        w.write_fails(c.choice('reported_by', ['write', 'close']), c.int('cut', 0, 10 ** 6))
+        c.reset_trace()
+        c.call((cache, 'insert'), crc, c.get('table'))
+        c.ensure('failed-store-does-not-raise', 'raised is None')
+        c.ensure('only-the-file-of-this-checksum-was-opened-for-writing', 'writes() == (rw + "/%08X.json" % crc,)')
+        if c.choice('session', ['same-object', 'restart']) == 'restart':
+            cache = c.new(TC + ':TocCache', rw_cache=rw)
+        c.reset_trace()
+        c.call((cache, 'fetch'), crc)
+        c.ensure('half-written-file-is-a-miss', 'raised is None and result is None')
+        c.ensure('fetch-writes-nothing', 'writes() == ()')
+        c.call((cache, 'insert'), crc, c.get('table'))
+        c.ensure('repair-no-exception', 'raised is None')
+        c.call((cache, 'fetch'), crc)
+        c.ensure('repaired-table-is-found-and-identical', 'raised is None and result is not None and flat(result) == stored')
+        w.close()
+    return k
+
+
+for _k in ('log', 'param'):
+    _write_error(_k)
+
+
+@contract('C11', 'swarm.shared_directory',
+          [TC + ':TocCache.__init__', TC + ':TocCache.insert', TC + ':TocCache.fetch', TC + ':TocCache._encoder', TC + ':TocCache._decoder'],
+          clause=P_MISS + ' - two members of a swarm (each Crazyflie has its own TocCache object, all on the same read-write directory) connect '
+          'at the same time: member B looks its table up while member A is in the middle of writing the file of that checksum (explicit '
+          'schedule: B runs when a strict prefix of the text is on the disk; B was created before A opened the file or while A writes): B '
+          'gets a miss, never a partial table and no exception; once A is done B finds the complete table or still misses, downloads and '
+          'stores the table itself, and then both find it',
+          bounded='single-entry table; one interruption point inside the write (the file holds a strict prefix of the text, any length)')
+def swarm_shared(c):
+    w = World(c)
+    rw = w.mkdir('rw')
+    c.let('rw', rw), c.let('ro', None)
+    crc = c.int('crc', 0, 2 ** 32 - 1)
+    kind = c.choice('kind', ['log', 'param'])
+    b_made = c.choice('b_created', ['before-a-opens-the-file', 'while-a-writes'])
+    a = c.new(TC + ':TocCache', rw_cache=rw)
+    st = {'b': c.new(TC + ':TocCache', rw_cache=rw) if b_made == 'before-a-opens-the-file' else None}
+    toc, fl = table_of(c, kind, 1)
+    c.snapshot('table', 't_toc.toc')
+    c.snapshot('stored', 'flat(table)')
+
+    def b_runs():
+        if st['b'] is None:
+            st['b'] = c.invoke(c.cls(TC + ':TocCache'), rw_cache=rw)
+        st['exc'] = c.invoke_catch((st['b'], 'fetch'), crc)
+        st['res'] = c.invoke((st['b'], 'fetch'), crc) if st['exc'] is None else None
+    w.during_write(b_runs, c.int('cut', 0, 10 ** 6))
+    c.call((a, 'insert'), crc, c.get('table'))
+    c.ensure('a-stores-without-exception', 'raised is None')
+    c.let('b_ran', 'exc' in st)
+    c.ensure('schedule-was-run', 'b_ran')
+    c.let('during_exc', st.get('exc')), c.let('during_result', st.get('res'))
+    c.ensure('lookup-during-the-write-is-a-miss', 'during_exc is None and during_result is None')
+    b = st['b']
+    if b is not None:
+        c.call((b, 'fetch'), crc)
+        c.ensure('afterwards-complete-table-or-miss', 'raised is None and (result is None or flat(result) == stored)')
+        if c.get('result') is None:
+            c.call((b, 'insert'), crc, c.get('table'))          # B has downloaded the same table
+            c.ensure('b-stores-without-exception', 'raised is None')
+            c.call((b, 'fetch'), crc)
+            c.ensure('b-finds-its-table', 'raised is None and result is not None and flat(result) == stored')
+    c.call((a, 'fetch'), crc)
+    c.ensure('a-finds-the-table', 'raised is None and result is not None and flat(result) == stored')
+    w.close()
+
+
+# ---------------------------------------------------------------- files named like a cache file whose content the encoder did not write
+
+IS_TABLE = ('lambda t: typename(t) == "dict" and all(typename(g) == "dict" and '
+            'all(typename(e) in ("LogTocElement", "ParamTocElement") for e in g.values()) for g in t.values())')
+
+
+def _foreign_docs(f):
+    ent = dict(f)
+    tagged = dict([('__class__', 'LogTocElement')] + list(f))
+    return {
+        'empty': [('empty-list', []), ('null', None), ('zero', 0), ('empty-string', ''), ('false', False), ('empty-object', {})],
+        'not_a_table': [('list', [1]), ('number', 42), ('string', 'toc'), ('true', True),
+                        ('group-is-a-number', {'g': 5}), ('group-is-a-list', {'g': [1]}), ('entry-is-a-number', {'g': {'n': 5}}),
+                        ('entry-without-class-tag', {'g': {'n': ent}}),
+                        ('element-at-top-level', tagged), ('element-at-group-level', {'g': tagged}),
+                        ('list-of-tables', [{'g': {'n': tagged}}])],
+    }
+
+
+def _foreign_content(which, **opts):
+    @contract('C11', 'fetch.foreign_content.' + which, [TC + ':TocCache.__init__', TC + ':TocCache.fetch', TC + ':TocCache._decoder'],
+              clause=P_MISS + ' - a file named like a cache file that is well-formed JSON but not a table (a table: two levels of objects '
+              'whose leaves carry the class tag): ' +
+              ('an empty document (empty list / object / string, null, 0, false) is a miss: fetch yields nothing the fetcher would use'
+               if which == 'empty' else
+               'a list, a number, a string, a table whose groups or entries are not objects, entries without the class tag, an element '
+               'where a table or a group should be - fetch yields a table of elements or a miss, never something else'),
+              bounded='the %d document shapes listed in _foreign_docs' % len(_foreign_docs([])[which]), **opts)
+    def k(c):
+        w = World(c)
+        c.snapshot('is_table', IS_TABLE)
+        where = c.choice('where', ['ro', 'rw'])
+        d = w.mkdir(where)
+        crc = c.int('crc', 0, 2 ** 32 - 1)
+        f = fields(c, 'e', 'log')
+        docs = _foreign_docs(f)[which]
+        shape = c.choice('shape', [nm for nm, _ in docs])
+        w.put_json(d, crc, dict(docs)[shape])
+        cache = c.new(TC + ':TocCache', **{where + '_cache': d})
+        c.reset_trace()
+        c.call((cache, 'fetch'), crc)
+        c.ensure('no-exception', 'raised is None')
+        # an answer that is false (None, {}, [], 0, "") is a miss for the fetcher: it downloads (fetcher.info_reply.*)
+        c.ensure('a-table-or-a-miss', 'result is None or not result or is_table(result)')
+        c.ensure('fetch-writes-nothing', 'writes() == () and len(calls("os.makedirs")) == 0')
+        w.close()
+    return k
+
+
+_foreign_content('empty')
+# FINDING CANDIDATE (unchanged tree, replays natively): every shape of 'not_a_table' comes back from fetch as it is (a list, a number, a
+# table with numbers for groups ...), the fetcher adopts it as the table (TocFetcher._new_packet_cb: `if (cache_data): self.toc.toc =
+# cache_data`) and the connection later fails on it.  Thorough tier only until the maintainer of this directory has decided.
+_foreign_content('not_a_table', thorough_only=True)
